@@ -100,3 +100,18 @@ Proof.
   - right. split; [exact H|]. destruct (skipn_N w l) as [|y ys] eqn:E; [|eauto].
     apply skipn_N_nil_iff in E. lia.
 Qed.
+
+Lemma firstn_N_app_l {A} w (l1 l2 : list A) : w <= nlen l1 -> firstn_N w (l1 ++ l2) = firstn_N w l1.
+Proof.
+  intros H. rewrite !firstn_N_eq. rewrite firstn_app.
+  replace (N.to_nat w - length l1)%nat with O by (unfold nlen in H; lia).
+  simpl. apply app_nil_r.
+Qed.
+
+Lemma firstn_N_app_r {A} w (l1 l2 : list A) : nlen l1 <= w ->
+  firstn_N w (l1 ++ l2) = l1 ++ firstn_N (w - nlen l1) l2.
+Proof.
+  intros H. rewrite !firstn_N_eq. rewrite firstn_app.
+  rewrite firstn_all2 by (unfold nlen in H; lia).
+  f_equal. f_equal. unfold nlen. lia.
+Qed.
